@@ -87,16 +87,56 @@ func flight0Parse(
 		return 0, &alert.Alert{Level: alert.Fatal, Description: alert.InsufficientSecurity}, dtlserrors.ErrCipherSuiteNoIntersection //nolint:lll
 	}
 
+	if dtlsAlert, err := applyClientHelloExtensions(state, cfg, clientHello); err != nil {
+		return 0, dtlsAlert, err
+	}
+
+	state.RemoteClientHelloSnapshots.Reset()
+	if err := state.RemoteClientHelloSnapshots.RecordWire(pull.Items[0].Raw.Data); err != nil {
+		return 0, nil, err
+	}
+
+	nextFlight := Flight2
+
+	if cfg.InsecureSkipHelloVerify {
+		nextFlight = Flight4
+	}
+
+	return handleHelloResume(clientHello.SessionID, state, cfg, nextFlight)
+}
+
+// applyClientHelloExtensions derives the negotiation state that depends on the
+// ClientHello extensions. It is applied to the first ClientHello and again to the
+// one that echoes the cookie: only the latter is part of the handshake transcript
+// (RFC 6347 Section 4.2.1), so it alone may decide what is negotiated. Otherwise
+// an attacker who alters the extensions of the first ClientHello would steer the
+// outcome (strip extended_master_secret, ALPN, supported groups) without either
+// Finished check noticing.
+//
+//nolint:cyclop
+func applyClientHelloExtensions(
+	state *dtlsstate.State12,
+	cfg *dtlsconfig.HandshakeConfig,
+	clientHello *handshake.MessageClientHello,
+) (*alert.Alert, error) {
+	state.ExtendedMasterSecret = false
+	state.ServerName = ""
+	state.PeerSupportedProtocols = nil
+	state.RemoteCertSignatureSchemes = nil
+	state.RemoteSupportsRenegotiation = slices.Contains(clientHello.CipherSuiteIDs, renegotiationInfoSCSV)
+	if ellipticCurves := supportedEllipticCurves(cfg.EllipticCurves); len(ellipticCurves) != 0 {
+		state.NamedCurve = ellipticCurves[0]
+	}
 	state.RemoteSignatureSchemes = nil
 	for _, val := range clientHello.Extensions {
 		switch ext := val.(type) {
 		case *extension.SupportedGroups:
 			if len(ext.Groups) == 0 {
-				return 0, &alert.Alert{Level: alert.Fatal, Description: alert.InsufficientSecurity}, dtlserrors.ErrNoSupportedEllipticCurves //nolint:lll
+				return &alert.Alert{Level: alert.Fatal, Description: alert.InsufficientSecurity}, dtlserrors.ErrNoSupportedEllipticCurves //nolint:lll
 			}
 			namedCurve, ok := selectEllipticCurve(cfg.EllipticCurves, ext.Groups)
 			if !ok {
-				return 0, &alert.Alert{Level: alert.Fatal, Description: alert.InsufficientSecurity}, dtlserrors.ErrNoSupportedEllipticCurves //nolint:lll
+				return &alert.Alert{Level: alert.Fatal, Description: alert.InsufficientSecurity}, dtlserrors.ErrNoSupportedEllipticCurves //nolint:lll
 			}
 			state.NamedCurve = namedCurve
 		case *extension12.ExtendedMasterSecret:
@@ -119,29 +159,18 @@ func flight0Parse(
 	}
 
 	if cfg.ExtendedMasterSecret == dtlsconfig.RequireExtendedMasterSecret && !state.ExtendedMasterSecret {
-		return 0, &alert.Alert{Level: alert.Fatal, Description: alert.InsufficientSecurity}, dtlserrors.ErrServerRequiredButNoClientEMS //nolint:lll
+		return &alert.Alert{Level: alert.Fatal, Description: alert.InsufficientSecurity}, dtlserrors.ErrServerRequiredButNoClientEMS //nolint:lll
 	}
 
-	if state.LocalKeypair == nil {
+	if state.LocalKeypair == nil || state.LocalKeypair.Curve != state.NamedCurve {
 		var err error
 		state.LocalKeypair, err = elliptic.GenerateKeypair(state.NamedCurve)
 		if err != nil {
-			return 0, &alert.Alert{Level: alert.Fatal, Description: alert.IllegalParameter}, err
+			return &alert.Alert{Level: alert.Fatal, Description: alert.IllegalParameter}, err
 		}
 	}
 
-	state.RemoteClientHelloSnapshots.Reset()
-	if err := state.RemoteClientHelloSnapshots.RecordWire(pull.Items[0].Raw.Data); err != nil {
-		return 0, nil, err
-	}
-
-	nextFlight := Flight2
-
-	if cfg.InsecureSkipHelloVerify {
-		nextFlight = Flight4
-	}
-
-	return handleHelloResume(clientHello.SessionID, state, cfg, nextFlight)
+	return nil, nil
 }
 
 func handleHelloResume(
